@@ -1,0 +1,46 @@
+//go:build verif
+
+package main
+
+import (
+	"bufio"
+	"encoding/hex"
+	"fmt"
+	"strings"
+
+	"github.com/goccmack/gocc/internal/frontend/scanner"
+	"github.com/goccmack/gocc/internal/frontend/token"
+)
+
+func init() { commands["fscan"] = cmdFScan }
+
+// cmdFScan: per hex-encoded source prints the front-end token stream up to and
+// including the first EOF token (type:lithex:offset:line:column) and the final ErrorCount.
+func cmdFScan(in *bufio.Reader, out *bufio.Writer, _ []string) {
+	sc := bufio.NewScanner(in)
+	sc.Buffer(make([]byte, 1<<20), 1<<26)
+	for sc.Scan() {
+		src, err := hex.DecodeString(strings.TrimSpace(sc.Text()))
+		if err != nil {
+			panic(err)
+		}
+		func() {
+			defer func() {
+				if r := recover(); r != nil {
+					fmt.Fprintf(out, "PANIC ")
+				}
+			}()
+			s := &scanner.Scanner{}
+			s.Init(src, token.FRONTENDTokens)
+			for i := 0; i < len(src)+2; i++ {
+				tok, pos := s.Scan()
+				fmt.Fprintf(out, "%d:%s:%d:%d:%d ", int(tok.Type), hex.EncodeToString(tok.Lit), pos.Offset, pos.Line, pos.Column)
+				if tok.Type == token.EOF {
+					break
+				}
+			}
+			fmt.Fprintf(out, "E%d", s.ErrorCount)
+		}()
+		out.WriteByte('\n')
+	}
+}
